@@ -1277,3 +1277,92 @@ Proof.
 Qed.
 
 End Events.
+
+(* ---------- updatePod with its guard: the state after event i depends on version i alone ---------- *)
+
+Lemma ev_hist_from_no_keep {V} (keeps : V -> V -> bool) (req : V -> res) (vs : list V) : forall prev st,
+  (forall a b, b ∈ vs -> keeps a b = false) ->
+  ev_hist_from keeps req prev st vs = ev_trace_from st (map req vs).
+Proof.
+  induction vs as [|v r IH]; intros prev st H; [reflexivity|].
+  cbn [ev_hist_from map ev_trace_from]. rewrite (H prev v) by (left).
+  f_equal. apply IH. intros a b Hb. apply H. right. exact Hb.
+Qed.
+
+Lemma ev_hist_no_keep {V} (keeps : V -> V -> bool) (req : V -> res) (vs : list V) :
+  (forall a b, b ∈ vs -> keeps a b = false) -> ev_hist keeps req vs = ev_trace (map req vs).
+Proof.
+  destruct vs as [|v r]; intros H; [reflexivity|]. cbn [ev_hist map ev_trace]. f_equal.
+  apply ev_hist_from_no_keep. intros a b Hb. apply H. right. exact Hb.
+Qed.
+
+Section EventsGuard.
+Variable tracked : positive -> bool.
+Variable plsup : positive -> bool.
+
+(* INDEPENDENT SPECIFICATION of the event handlers: the cache state after event i
+   is a function of pod version i ALONE (upstream's request of that version + pods
+   + volumes; Used carries the same amounts), for every history all of whose
+   versions are bound (so that updatePod's early return is not taken).  The model
+   has the code's structure: a keep-branch that leaves the stored task, and a
+   RemoveTask of the STORED request followed by a new TaskInfo. *)
+Theorem event_history_spec ippvs plr ippl dra (vs : list (list positive * pod_meta * pod)) :
+  Forall (fun x => pod_ok tracked plsup x.2) vs ->
+  Forall (fun x => m_node x.1.2 = true) vs ->
+  Forall2 (fun st x =>
+             let want := cache_add_csi
+               (add_scalar (new_resource tracked (k8s_pod_requests plsup (opts_of ippvs plr ippl dra) x.2)) pods_name 1) x.1.1 in
+             st_task st = want /\ same_amounts (st_used st) want)
+          (ev_hist code_keeps (fun x => cache_task_resreq tracked plsup ippvs plr ippl dra x.1.1 x.1.2 x.2) vs) vs.
+Proof.
+  intros Hok Hb. rewrite ev_hist_no_keep.
+  - apply event_history_eq_upstream. exact Hok.
+  - intros a b Hin. unfold code_keeps. rewrite Forall_forall in Hb. rewrite (Hb b Hin). reflexivity.
+Qed.
+
+End EventsGuard.
+
+(* the variant of seed C15-r8-1 as a model: updatePod keeps the stored task when a
+   Running pod's update leaves the SPEC unchanged.  It violates the specification:
+   v0 = spec 6 cpu, resize Infeasible, status / allocated 1 cpu (request 1000m);
+   v1 = the same spec, condition gone, allocated 6 cpu (request 6000m): the kept
+   task still says 1000m. *)
+Global Instance container_eq_dec : EqDecision container.
+Proof. solve_decision. Defined.
+
+Definition r81_keeps (a b : list positive * pod_meta * pod) : bool :=
+  bool_decide (m_phase a.1.2 = 2) && bool_decide (m_phase b.1.2 = 2) &&
+  bool_decide (p_containers a.2 = p_containers b.2) && bool_decide (p_inits a.2 = p_inits b.2) &&
+  bool_decide (p_overhead a.2 = p_overhead b.2) && bool_decide (p_plreq a.2 = p_plreq b.2).
+
+Definition resize_v0 : pod :=
+  mkPod [mkC 1 false {[cpu_name := 6 * nano_per_unit]}] []
+        [mkCS 1 (Some {[cpu_name := 1 * nano_per_unit]}) {[cpu_name := 1 * nano_per_unit]}] [] ∅ None
+        [(true, true)] None ∅ [].
+Definition resize_v1 : pod :=
+  mkPod [mkC 1 false {[cpu_name := 6 * nano_per_unit]}] []
+        [mkCS 1 (Some {[cpu_name := 1 * nano_per_unit]}) {[cpu_name := 6 * nano_per_unit]}] [] ∅ None
+        [] None ∅ [].
+Definition resize_history : list (list positive * pod_meta * pod) :=
+  [([], mkMeta 2 true false, resize_v0); ([], mkMeta 2 true false, resize_v1)].
+
+Lemma early_return_variant_refuted :
+  Forall (fun x => pod_ok all_tracked huge_only x.2) resize_history /\
+  Forall (fun x => m_node x.1.2 = true) resize_history /\
+  map (fun st => cpu (st_task st))
+      (ev_hist r81_keeps (fun x => cache_task_resreq all_tracked huge_only true true true false x.1.1 x.1.2 x.2) resize_history)
+    = [1000; 1000] /\
+  map (fun st => cpu (st_task st))
+      (ev_hist code_keeps (fun x => cache_task_resreq all_tracked huge_only true true true false x.1.1 x.1.2 x.2) resize_history)
+    = [1000; 6000] /\
+  map (fun x => cpu (new_resource all_tracked (k8s_pod_requests huge_only (opts_of true true true false) x.2))) resize_history
+    = [1000; 6000].
+Proof.
+  split; [|split; [|split; [|split]]].
+  - apply Forall_cons; split; [apply (bool_decide_unpack _); vm_compute; exact I|].
+    apply Forall_cons; split; [apply (bool_decide_unpack _); vm_compute; exact I|]. apply Forall_nil; exact I.
+  - apply Forall_cons; split; [reflexivity|]. apply Forall_cons; split; [reflexivity|]. apply Forall_nil; exact I.
+  - vm_compute. reflexivity.
+  - vm_compute. reflexivity.
+  - vm_compute. reflexivity.
+Qed.
